@@ -712,6 +712,10 @@ class SeriesOps:
             return ("getattr", to_term(a0), to_term(pos[1]))
         if fn in ("iter",):
             return ("iter", to_term(a0))
+        if fn == "slice" and 1 <= len(pos) <= 3 and not kw:
+            # slice(a, b[, c]) is the object x[a:b:c] subscripts with
+            lo, hi, st = (None, pos[0], None) if len(pos) == 1 else (pos[0], pos[1], pos[2] if len(pos) == 3 else None)
+            return ("slice", tuple(None if x is None else I._hashable(x) for x in (lo, hi, st)))
         if fn == "next" and isinstance(a0, GuardedSeq) and len(pos) == 2:
             # the first element whose condition holds, else the default
             r = pos[1]
